@@ -185,6 +185,16 @@ CHECKS = {
                 "obstacles are attributed to the recorded half-radius finding. Exploration only.",
         "note": "Band as in C06; set-based predictions and use_center_only are outside the domain.",
     },
+    "C09": {
+        "technique": "property-based stateful / model-based testing: Hypothesis-generated operation histories "
+                     "interpreted in lock-step with an id-pool model; deep-copy probes through the public API detect "
+                     "leaked and double-freed reservations",
+        "text": "~11000 histories of up to 40 operations per quick run over universes of up to 40 objects with ids from "
+                "a 14-value pool; every add / remove (single and list forms) / replace / generate operation; "
+                "exploration only.",
+        "note": "Trusts the documented hanging-members rule; accepts either outcome where replace / add-network "
+                "semantics are undocumented, as long as the pool stays exact.",
+    },
 }
 
 NOT_APPLICABLE = [{"property_id": p, "reason": "check not built yet (work in progress; will be claimed once its "
